@@ -32,6 +32,9 @@ type ruleIn struct {
 	Host string `json:"host"`
 	Path string `json:"path"`
 	Type string `json:"type"` // exact | prefix | begin
+	// Header "Name:value": the rule only applies to requests carrying the header (Gateway
+	// API header match, http-header-match annotation). Only in the converter streams.
+	Header string `json:"header,omitempty"`
 }
 
 type input struct {
@@ -47,6 +50,10 @@ type input struct {
 	// every rule, and the model must still reproduce the files; the precedence oracle
 	// and the checker are not applied.
 	Malformed bool `json:"malformed,omitempty"`
+	// Source "gateway" / "ingress": the rules are declared as Gateway API HTTPRoutes /
+	// Ingress resources, converted by the real converter and rendered by the real
+	// controller pipeline (conv.go). "" = the Config or the map builder is filled directly.
+	Source string `json:"source,omitempty"`
 }
 
 // fed is one AddHostnamePathMapping call, in call order.
@@ -60,6 +67,7 @@ type fileObs struct {
 	Name    string      `json:"name"`
 	Method  string      `json:"method"`
 	Lower   bool        `json:"lower"`
+	Headers []string    `json:"headers,omitempty"` // header conditions of the lookup ("Name:value")
 	Entries [][2]string `json:"entries"`
 }
 
@@ -84,6 +92,13 @@ type obs struct {
 	rendered []fileObs // what was written: the map files read back, in the order the configuration consults them
 	chain    string    // a defect of the lookup chain of the rendered haproxy.cfg ("" = none; only through the instance)
 	viaInst  bool
+	// converter streams: mem / rendered hold the lookups without header condition,
+	// memAll / renderedAll every lookup; ruleOf maps a backend ID to the rule index
+	conv        bool
+	memAll      []fileObs
+	renderedAll []fileObs
+	ruleOf      map[string]int
+	targets     []string
 }
 
 func memFiles(hm *hatypes.HostsMap) []fileObs {
@@ -105,7 +120,10 @@ func memFiles(hm *hatypes.HostsMap) []fileObs {
 //     Hosts.AcquireHost / Host.AddPath / Backends.AcquireBackend, HAProxyUpdate; the lookup
 //     chain is read from the rendered haproxy.cfg and the map files it names from disk;
 //   - malformed, not direct: Hosts + map builder + map template (no instance).
-func run(in input, mr *mapRenderer, ie *instEnv) obs {
+func run(in input, mr *mapRenderer, ie *instEnv, outDir string) obs {
+	if in.Source != "" {
+		return runConverted(in, outDir)
+	}
 	if !in.Direct && !in.Malformed {
 		return ie.run(in)
 	}
@@ -257,7 +275,7 @@ func acceptable(rules []ruleIn, host, path string) []int {
 	var exact, other []int
 	maxlen := -1
 	for i, r := range rules {
-		if !applies(r, host, path) {
+		if r.Header != "" || !applies(r, host, path) {
 			continue
 		}
 		if r.Type == "exact" {
@@ -427,8 +445,12 @@ type verdict struct {
 }
 
 func oracle(in input, files []fileObs) *verdict {
-	// every rule must be present exactly once with its key under the right method
+	// every rule without header condition must be present exactly once in the files that
+	// are consulted unconditionally
 	for i, r := range in.Rules {
+		if r.Header != "" {
+			continue
+		}
 		n := 0
 		for _, f := range files {
 			for _, e := range f.Entries {
@@ -477,6 +499,88 @@ func oracle(in input, files []fileObs) *verdict {
 					return &verdict{"C04/" + classify(in, files, got, want),
 						fmt.Sprintf("%s: answered by %v (file %s) but %v must win; files: %s", req, in.Rules[got], files[h.file].Name, in.Rules[want], showFiles(files)),
 						in.Rules[got], in.Rules[want]}
+				}
+			}
+		}
+	}
+	return nil
+}
+
+// oracleFiltered judges requests that carry the header of a rule with a header match
+// (converter streams). all = every lookup of the chain with its header conditions.
+//   - a rule with a header match sits in exactly one lookup conditioned on that header;
+//   - a request with the header whose path a filtered rule of that header matches is
+//     answered by such a rule;
+//   - a request with the header that no filtered rule matches falls through to the
+//     unconditional lookups: exact first, then the longest declared path.
+func oracleFiltered(in input, all []fileObs) *verdict {
+	headers := map[string]bool{}
+	for i, r := range in.Rules {
+		if r.Header == "" {
+			continue
+		}
+		headers[r.Header] = true
+		n, bad := 0, ""
+		for _, f := range all {
+			for _, e := range f.Entries {
+				if targetRule(e[1]) == i {
+					n++
+					if len(f.Headers) != 1 || f.Headers[0] != r.Header {
+						bad = fmt.Sprintf("in lookup %s conditioned on %v", f.Name, f.Headers)
+					}
+				}
+			}
+		}
+		if n != 1 || bad != "" {
+			return &verdict{"C04/filtered-rule-misplaced", fmt.Sprintf("rule %d (%v) with a header match appears %d times %s", i, r, n, bad), all, nil}
+		}
+	}
+	paths := requestPaths(in.Rules)
+	for hdr := range headers {
+		var visible []fileObs
+		for _, f := range all {
+			if len(f.Headers) == 0 || (len(f.Headers) == 1 && f.Headers[0] == hdr) {
+				visible = append(visible, f)
+			}
+		}
+		for _, host := range requestHosts(in.Rules) {
+			for _, path := range paths {
+				var filt []int
+				for i, r := range in.Rules {
+					if r.Header == hdr && applies(r, host, path) {
+						filt = append(filt, i)
+					}
+				}
+				acc := acceptable(in.Rules, host, path)
+				h := lookup(visible, asciiLower(host)+"#"+path, false)
+				req := fmt.Sprintf("request host=%q path=%q with header %s", host, path, hdr)
+				if len(filt) > 0 {
+					ok := false
+					if h != nil {
+						for _, i := range filt {
+							if targetRule(h.val) == i {
+								ok = true
+							}
+						}
+					}
+					if !ok {
+						return &verdict{"C04/filtered-rule-skipped", fmt.Sprintf("%s: rule %v with that header match applies but the answer is %v; files: %s", req, in.Rules[filt[0]], h, showFiles(visible)), h, in.Rules[filt[0]]}
+					}
+					continue
+				}
+				if h == nil && len(acc) == 0 {
+					continue
+				}
+				ok := false
+				if h != nil {
+					for _, a := range acc {
+						if targetRule(h.val) == a {
+							ok = true
+						}
+					}
+				}
+				if !ok {
+					return &verdict{"C04/filtered-fallthrough", fmt.Sprintf("%s: no rule with that header applies, the unconditional rules allow %v but the answer is %v; files: %s", req, acc, h, showFiles(visible)), h, nil}
 				}
 			}
 		}
@@ -661,26 +765,70 @@ func genMalformed(rng *rand.Rand) input {
 	return in
 }
 
+var headerPool = []string{"X-Env:canary", "X-Env:beta", "X-Ver:2"}
+
+// genConverted: a rule set declared as Gateway API HTTPRoutes (Exact / PathPrefix) or as
+// Ingress resources (Exact / Prefix / ImplementationSpecific = begin), about one rule in
+// five with a header match.
+func genConverted(rng *rand.Rand, source string) input {
+	var base input
+	if rng.Intn(2) == 0 {
+		base = genChain(rng)
+	} else {
+		base = genRandom(rng, false)
+	}
+	in := input{Order: base.Order, Source: source}
+	seen := map[string]bool{}
+	withHeaders := rng.Intn(2) == 0
+	for _, r := range base.Rules {
+		if source == "gateway" && r.Type == "begin" {
+			r.Type = []string{"prefix", "exact", "prefix", ""}[rng.Intn(3)]
+		}
+		if withHeaders && rng.Intn(4) == 0 {
+			r.Header = headerPool[rng.Intn(len(headerPool))]
+		}
+		k := keyedOf(r)
+		id := k.host + " " + k.kpath + " " + k.typ + " " + r.Header
+		// the converters refuse a redeclared (host, path, type, headers); begin keys also
+		// collide when they only differ in case
+		if seen[id] || seen[k.host+" "+r.Path+" "+r.Type+" "+r.Header] {
+			continue
+		}
+		seen[id] = true
+		in.Rules = append(in.Rules, r)
+	}
+	return in
+}
+
 // corpus: past failures and hand-made boundary cases, always run first.
 func corpus() []input {
 	def := []string{"exact", "prefix", "begin", "regex"}
 	var out []input
 	// DESIGN §8 item 8 (i): case-sensitive overlap test, begin nested under a prefix rule
 	out = append(out, input{Order: []string{"exact", "begin", "prefix", "regex"}, Rules: []ruleIn{
-		{"h", "/App/sub", "prefix"}, {"h", "/app", "begin"}}})
+		{"h", "/App/sub", "prefix", ""}, {"h", "/app", "begin", ""}}})
 	out = append(out, input{Order: def, Rules: []ruleIn{
-		{"h", "/app/sub", "begin"}, {"h", "/App", "prefix"}}})
+		{"h", "/app/sub", "begin", ""}, {"h", "/App", "prefix", ""}}})
 	// DESIGN §8 item 8 (ii): _upper overwritten (two hosts)
 	out = append(out, input{Order: def, Rules: []ruleIn{
-		{"g", "/a/b/c", "prefix"}, {"g", "/a/b", "begin"}, {"g", "/a", "prefix"},
-		{"h", "/a/x/y", "begin"}, {"h", "/a/x", "prefix"}, {"h", "/a/b/c", "prefix"}, {"h", "/a", "begin"}, {"h", "/", "prefix"}}})
+		{"g", "/a/b/c", "prefix", ""}, {"g", "/a/b", "begin", ""}, {"g", "/a", "prefix", ""},
+		{"h", "/a/x/y", "begin", ""}, {"h", "/a/x", "prefix", ""}, {"h", "/a/b/c", "prefix", ""}, {"h", "/a", "begin", ""}, {"h", "/", "prefix", ""}}})
 	// boundaries of the property text
 	out = append(out, input{Order: def, Rules: []ruleIn{
-		{"h", "/app", "prefix"}, {"h", "/app1", "exact"}, {"h", "/app/", "begin"}, {"h", "/App", "begin"}, {"g", "/app", "exact"}, {"g", "/", "begin"}}})
+		{"h", "/app", "prefix", ""}, {"h", "/app1", "exact", ""}, {"h", "/app/", "begin", ""}, {"h", "/App", "begin", ""}, {"g", "/app", "exact", ""}, {"g", "/", "begin", ""}}})
 	out = append(out, input{Order: []string{"regex", "begin", "prefix", "exact"}, Rules: []ruleIn{
-		{"h", "/", "prefix"}, {"h", "/a", "begin"}, {"h", "/a/", "prefix"}, {"h", "/a/b", "exact"}, {"h", "/a/b", "begin"}, {"hh", "/a", "prefix"}}})
+		{"h", "/", "prefix", ""}, {"h", "/a", "begin", ""}, {"h", "/a/", "prefix", ""}, {"h", "/a/b", "exact", ""}, {"h", "/a/b", "begin", ""}, {"hh", "/a", "prefix", ""}}})
 	for i := range out {
 		out = append(out, input{Order: out[i].Order, Rules: out[i].Rules, Direct: true})
+	}
+	// rule sets declared through the Gateway API: a prefix path sorting before the exact
+	// one, and two hosts sharing the map (the exact file has to stay the first lookup);
+	// the same through Ingress resources; and with header matches
+	gw1 := []ruleIn{{Host: "c.local", Path: "/app/sub/x", Type: "prefix"}, {Host: "c.local", Path: "/app/sub", Type: "exact"}, {Host: "c.local", Path: "/app", Type: "prefix"}}
+	gw2 := []ruleIn{{Host: "a.local", Path: "/", Type: "prefix"}, {Host: "b.local", Path: "/app", Type: "exact"}, {Host: "b.local", Path: "/", Type: "prefix"}}
+	gw3 := []ruleIn{{Host: "c.local", Path: "/app", Type: "prefix", Header: "X-Env:canary"}, {Host: "c.local", Path: "/app/sub", Type: "exact"}, {Host: "c.local", Path: "/app", Type: "prefix"}, {Host: "c.local", Path: "/app/sub", Type: "exact", Header: "X-Env:canary"}}
+	for _, rs := range [][]ruleIn{gw1, gw2, gw3} {
+		out = append(out, input{Order: def, Rules: rs, Source: "gateway"}, input{Order: []string{"regex", "begin", "prefix", "exact"}, Rules: rs, Source: "ingress"})
 	}
 	return out
 }
@@ -702,6 +850,11 @@ func coqCase(id int, in input, seq []fed, files []fileObs) string {
 	}
 	for _, f := range seq {
 		r := in.Rules[f.Rule]
+		if r.Header != "" {
+			// entries with a header match are outside the Coq model (see Corr_C04.v): the model
+			// and the checker get the entries and the lookups without header condition
+			continue
+		}
 		ents = append(ents, hx.Tuple(hx.Str(r.Host), hx.Str(r.Path), coqType(r.Type), hx.N(f.Order), hx.Str(f.Target)))
 	}
 	for _, f := range files {
@@ -752,7 +905,9 @@ func main() {
 			n = o.Count(20000, 150000)
 		}
 		for i := 0; i < n; i++ {
-			if i%10 == 9 {
+			if i%5 == 0 {
+				inputs = append(inputs, genConverted(rng, []string{"gateway", "ingress"}[(i/5)%2]))
+			} else if i%10 == 9 {
 				inputs = append(inputs, genMalformed(rng))
 			} else if i%3 == 2 {
 				inputs = append(inputs, genChain(rng))
@@ -762,7 +917,11 @@ func main() {
 		}
 	}
 	for _, in := range inputs {
-		ob := run(in, mr, ie)
+		ob := run(in, mr, ie, o.Out)
+		curRuleOf = ob.ruleOf
+		if ob.memAll == nil && ob.renderedAll == nil {
+			ob.memAll, ob.renderedAll = ob.mem, ob.rendered
+		}
 		seq, files := ob.seq, ob.rendered
 		nested := false
 		for i, a := range in.Rules {
@@ -785,19 +944,23 @@ func main() {
 		res.Count("order=" + strings.Join(in.Order, ","))
 		res.Count(fmt.Sprintf("direct=%v", in.Direct))
 		res.Count(fmt.Sprintf("malformed=%v", in.Malformed))
-		res.Sample(5, map[string]interface{}{"input": in, "files": files})
+		res.Sample(5, map[string]interface{}{"input": in, "files": ob.renderedAll})
 		res.Count(fmt.Sprintf("through_instance=%v", ob.viaInst))
+		res.Count("source=" + map[string]string{"": "direct-fill", "gateway": "gateway-converter", "ingress": "ingress-converter"}[in.Source])
 		res.OracleChecks++
 		// the property is about the files as generated: what was written must be what
 		// MatchFiles() holds, and the configuration must consult the files one after the
 		// other until one answers; the request level oracle then runs on the rendered files
-		if d := sameFiles(ob.mem, ob.rendered); d != "" {
+		if d := sameFiles(ob.memAll, ob.renderedAll); d != "" {
 			res.Count("oracle_fail_C04/rendered-map-differs")
-			res.Fail(hx.Failure{Key: "C04/rendered-map-differs", What: "the generated map files differ from MatchFiles(): " + d, Input: in, Observed: ob.rendered, Expected: ob.mem})
+			res.Fail(hx.Failure{Key: "C04/rendered-map-differs", What: "the generated map files differ from MatchFiles(): " + d, Input: in, Observed: ob.renderedAll, Expected: ob.memAll})
 		} else if ob.chain != "" {
 			res.Count("oracle_fail_C04/lookup-chain")
 			res.Fail(hx.Failure{Key: "C04/lookup-chain", What: ob.chain, Input: in, Observed: ob.rendered})
 		} else if v := oracle(in, files); v != nil {
+			res.Count("oracle_fail_" + v.key)
+			res.Fail(hx.Failure{Key: v.key, What: v.what, Input: in, Observed: v.obs, Expected: v.exp})
+		} else if v := oracleFiltered(in, ob.renderedAll); v != nil {
 			res.Count("oracle_fail_" + v.key)
 			res.Fail(hx.Failure{Key: v.key, What: v.what, Input: in, Observed: v.obs, Expected: v.exp})
 		}
